@@ -21,7 +21,7 @@ def ts_jobs(tier):
         for k in (0, 1, 2, 3):
             base = {"max": mx, "min": mn, "tasks": ["gate0", "open0"], "clients": [ops],
                     "props": ["exactly_once", "bounded", "min_workers", "nodeadlock", "results"], "window_at": k, "twin_prog": "progress"}
-            out.append((dict(base, name="c10-dependent-max{0}min{1}-op{2}".format(mx, mn, k)), full))
+            out.append((dict(base, name="c10-dependent-max{0}min{1}-op{2}".format(mx, mn, k)), full if mx <= 2 else dict(full, depth=14)))
             if thorough and k in (1, 3):
                 out.append((dict(base, name="c10-dependent-max{0}min{1}-op{2}".format(mx, mn, k)), ctx))
         # queued before start: start() must spawn enough workers
@@ -29,7 +29,7 @@ def ts_jobs(tier):
         for k in (2, 3):
             base = {"max": mx, "min": mn, "tasks": ["gate0", "open0"], "clients": [ops],
                     "props": ["exactly_once", "bounded", "nodeadlock"], "window_at": k, "twin_prog": "progress"}
-            out.append((dict(base, name="c10-prequeued-max{0}min{1}-op{2}".format(mx, mn, k)), full))
+            out.append((dict(base, name="c10-prequeued-max{0}min{1}-op{2}".format(mx, mn, k)), full if mx <= 2 else dict(full, depth=14)))
     # three mutually dependent tasks need three workers
     if thorough:
         ops = ["start", "enq0", "enq1", "enq2", "await0", "await1", "await2"]
